@@ -9,7 +9,9 @@ Python → Lean:
 * `transitions : dict state → dict state → Optional[str]` is an association list of
   association lists (insertion order, first match wins);
 * `re._validate(regex)` (lexer + `validate_tokens`) is a parameter `rxValid`; `simpleRxValid`
-  below is a character-level model of it for labels without `{`.
+  below is a character-level model of it for labels without `{`.  The instance shared with the
+  C10/C11 lexer model (quantifier rule included) is `reValidate` (Model/GNFARe.lean), which the
+  driver runs; Proofs/GnfaReValidate.lean proves the two equal on strings without `{`.
 -/
 import AutomataVerif.Model.Basic
 
